@@ -122,18 +122,19 @@ def stripTrailingBlanks (s : Str) : Str :=
 def helpText : Str :=
   "Visit https://github.com/SingularityT3/PseudoEngine2 for syntax, examples and more info\nUse `RUNFILE <filename>` to run programs stored in files\n".toList
 
-/-- collect continuation lines until an empty one; `none` on end of input -/
-def collectLines : Nat → Str → St → Option (Str × St)
-  | 0, code, st => some (code, st)
+/-- collect continuation lines until an empty one; `none` on end of input (the prompts printed
+    so far stay printed) -/
+def collectLines : Nat → Str → St → Option Str × St
+  | 0, code, st => (some code, st)
   | n + 1, code, st =>
     let st1 := { st with out := ". ".toList :: st.out }
     match (ExceptT.run getLine).run st1 with
     | (.ok (line, ok), st2) =>
-      if !ok then none
+      if !ok then (none, st2)
       else
         let code' := code ++ ['\n'] ++ line
-        if line.isEmpty then some (code', st2) else collectLines n code' st2
-    | (_, _) => none
+        if line.isEmpty then (some code', st2) else collectLines n code' st2
+    | (_, st2) => (none, st2)
 
 def replLoop (cfg : Cfg) : Nat → Bool → ReplSt → ReplSt
   | 0, _, r => { r with inconclusive := true }
@@ -169,11 +170,11 @@ def replLoop (cfg : Cfg) : Nat → Bool → ReplSt → ReplSt
             let st4 := { st3 with out := "\n==> Program exited with an error\n".toList :: st3.out }
             replLoop cfg n false { r with st := st4, errLines := ("Error: File '".toList ++ fname ++ "' not found!".toList) :: r.errLines }
       else
-        let full? : Option (Str × St) :=
-          if multilineStart code then collectLines (st2.stdin.length + 2) code st2 else some (code, st2)
+        let (full?, st3) : Option Str × St :=
+          if multilineStart code then collectLines (st2.stdin.length + 2) code st2 else (some code, st2)
         match full? with
-        | none => { r with st := st2 }     -- end of input inside a multi-line entry: the session ends
-        | some (src, st3) =>
+        | none => { r with st := st3 }     -- end of input inside a multi-line entry: the session ends
+        | some src =>
           match runSource cfg src st3 with
           | (.ok, s) => replLoop cfg n false { r with st := s }
           | (.diag d, s) =>
